@@ -66,7 +66,10 @@ func genStream(r *Rng, ts []pduType, nItems int, small bool) (items []streamItem
 			data = append(data, it.frame...)
 			continue
 		}
-		switch r.Intn(10) {
+		switch r.Intn(11) {
+		case 10: // an error response that still carries a (short) body: only the header counts
+			id := []uint32{0x80000004, 0x80000005, 0x80000021, 4, 0x80000103}[r.Intn(5)]
+			it = streamItem{frame: rawFrame(id, uint32(1+r.Intn(0x500)), int32(1+r.Intn(1000)), r.Bytes(1+r.Intn(40))), want: "ok-trailing"}
 		case 0: // acceptable header, unknown command_id
 			ids := []uint32{10, 0x0BAD, 0x80000000 | 0x0BAD, 0x7FFFFFFF, 0, 0xFFFFFFFF}
 			it = streamItem{frame: rawFrame(ids[r.Intn(len(ids))], 0, int32(1+r.Intn(1000)), r.Bytes(r.Intn(40))), want: "unknown-id"}
